@@ -81,6 +81,11 @@ CHECKS = {
    "Every value of the stated domains is encoded by the client in each carrier and spelling; the handler's typed argument is echoed and must equal the serde_json serialisation of the value byte for byte. Every interleaving of the schedule alphabet is executed on a fresh server; each response must carry only its own request's markers and peer address.",
    "serde_json as the serialiser of the expected echo; tokio-internal interleavings not enumerated",
    "DESIGN.md section 4/C09"),
+ "C10": ("E2-live", "exploration",
+   "bounded-exhaustive enumeration of ill-typed / malformed inputs per parameter position and type (16 scalar types x 4 positions x ~50 literals incl. MIN-1/MAX+1 of every width; field-set faults; every truncation / deletion / 0xff substitution of valid JSON and url-encoded bodies; wrong content types incl. a versioned route) on a live echo server with a handler-entered counter",
+   "Every input of the stated domains is judged by the standard deserializer for its carrier: refused -> 4xx with a framework-format error body and no handler run; accepted -> 200 with the reference value echoed. Never 5xx, never a missing response.",
+   "FromStr / serde_urlencoded / serde_json as reference decoders; non-finite float spellings are not judged",
+   "DESIGN.md section 4/C10"),
 }
 
 NOT_YET = {
@@ -121,7 +126,7 @@ def main():
       "engines": [
         {"name": "E1", "path": "harness/src/e1.rs + harness/src/bin/e1.rs", "serves_properties": ["C01","C02","C04","C06"], "kind_free_text": "stateless explicit exploration of registration histories on the real ApiDescription/HttpRouter"},
         {"name": "E3", "path": "harness/src/live.rs + harness/src/e3.rs + harness/src/bin/e3.rs", "serves_properties": ["C16","C17","C18"], "kind_free_text": "live event explorer: real HttpServer on loopback, raw TCP client, gated handlers, in-memory slog drain; stateless replay of every history"},
-        {"name": "E2", "path": "harness/src/bin/c03.rs c05.rs ...", "serves_properties": ["C03","C05","C09","C12","C13","C14","C15","C20"], "kind_free_text": "bounded-exhaustive input enumeration against reference functions, on the real public functions"},
+        {"name": "E2", "path": "harness/src/bin/c03.rs c05.rs ...", "serves_properties": ["C03","C05","C09","C10","C12","C13","C14","C15","C20"], "kind_free_text": "bounded-exhaustive input enumeration against reference functions, on the real public functions"},
       ],
       "checks": checks,
       "not_applicable": na,
